@@ -3,7 +3,7 @@ from .. import gen as G
 from .common import TRUSTED, ASSUMPTIONS, default_nontrivial, LEVEL_NOTE, TECHNIQUE
 
 LEVEL = "proof"
-THEOREMS = []
+THEOREMS = ['C08_lift','C08_some_dist','C08_never_nan','C08_fixed_point','C08_none_iff','C08_none_iff_general','C08_none_iff_no_informative','C08_deduce_none_iff','C08_fallback_lazy','C08_fallback_some','C08_abduce_none_iff']
 RULE = ("mbr / deduce / deduce_with / abduce on base rates with zero entries x conditional tables mixing vacuous, dogmatic and "
         "partially informative conditionals (incl. 'informative only where the base rate is zero' and all-vacuous); |X| 2..4, "
         "|Y| 2..3; dyadic grids; families A/M/D/N, owned/borrowed tables; f32+f64. non-trivial = distinct case with a value or None")
